@@ -27,13 +27,17 @@ structure LexCfg where
   ender : TT → Bool
   isAlnum : Char → Bool
 
+/-- result of one `scan_token`; `bytes` = how far the cursor moved -/
 inductive Step where
   | tok (t : Token) (rest : Str)
-  | skip (rest : Str)
-  | err (e : LexErr) (rest : Str)
+  | skip (bytes : Nat) (rest : Str)
+  | err (e : LexErr) (bytes : Nat) (rest : Str)
 
 def Step.rest : Step → Str
-  | .tok _ r => r | .skip r => r | .err _ r => r
+  | .tok _ r => r | .skip _ r => r | .err _ _ r => r
+
+def Step.bytes : Step → Nat
+  | .tok t _ => t.len | .skip b _ => b | .err _ b _ => b
 
 /-- body of a string literal: src `Lexer::string` loop. Input: text after the opening quote.
 Result: decoded value, consumed characters (incl. closing quote), rest — or the error class with the
@@ -135,11 +139,11 @@ def scanOne (cfg : LexCfg) (prev : Option TT) (pos : Nat) (c : Char) (cs : Str) 
   | .bang =>
     match cs with
     | '=' :: r => .tok (mkTok .bangEqual [c, '='] .none pos) r
-    | _ => .err ⟨.loneBang, [(pos, 1)]⟩ cs
+    | _ => .err ⟨.loneBang, [(pos, 1)]⟩ c.utf8Size cs
   | .eq =>
     match cs with
     | '=' :: r => .tok (mkTok .equalEqual [c, '='] .none pos) r
-    | _ => .err ⟨.loneEq, [(pos, 1)]⟩ cs
+    | _ => .err ⟨.loneEq, [(pos, 1)]⟩ c.utf8Size cs
   | .lt =>
     match cs with
     | '=' :: r => .tok (mkTok .lessEqual [c, '='] .none pos) r
@@ -151,25 +155,25 @@ def scanOne (cfg : LexCfg) (prev : Option TT) (pos : Nat) (c : Char) (cs : Str) 
     | _ => .tok (mkTok .greater [c] .none pos) cs
   | .slash =>
     match cs with
-    | '/' :: r => .skip (spanWhile (fun d => d != '\n') r).2
+    | '/' :: r => .skip (c.utf8Size + (1 + ulen (spanWhile (fun d => d != '\n') r).1)) (spanWhile (fun d => d != '\n') r).2
     | _ => .tok (mkTok .slash [c] .none pos) cs
   | .backslash =>
     match cs with
-    | '\n' :: r => .skip r
-    | _ => .err ⟨.badBackslash, [(pos, 1)]⟩ cs
-  | .blank => .skip cs
+    | '\n' :: r => .skip (c.utf8Size + 1) r
+    | _ => .err ⟨.badBackslash, [(pos, 1)]⟩ c.utf8Size cs
+  | .blank => .skip c.utf8Size cs
   | .newline =>
     match prev with
-    | some p => if cfg.ender p then .tok (mkTok .softSemi [c] .none pos) cs else .skip cs
-    | none => .skip cs
+    | some p => if cfg.ender p then .tok (mkTok .softSemi [c] .none pos) cs else .skip c.utf8Size cs
+    | none => .skip c.utf8Size cs
   | .quote =>
     match scanString cs with
     | .ok v consumed rest => .tok (mkTok .stringLiteral (c :: consumed) (.str v) pos) rest
-    | .badEscape _ rest => .err ⟨.badEscape, []⟩ rest
-    | .unterminated consumed => .err ⟨.unterminated, [(pos, 0), (pos, 1 + ulen consumed)]⟩ []
+    | .badEscape consumed rest => .err ⟨.badEscape, []⟩ (c.utf8Size + ulen consumed) rest
+    | .unterminated consumed => .err ⟨.unterminated, [(pos, 0), (pos, 1 + ulen consumed)]⟩ (c.utf8Size + ulen consumed) []
   | .digit => scanNumber pos c cs
   | .alnum => scanIdent cfg pos c cs
-  | .other => .err ⟨.unknownSymbol, [(pos, c.utf8Size)]⟩ cs
+  | .other => .err ⟨.unknownSymbol, [(pos, c.utf8Size)]⟩ c.utf8Size cs
 
 theorem scanNumber_progress (pos c cs) : (scanNumber pos c cs).rest.length ≤ cs.length := by
   unfold scanNumber
@@ -217,8 +221,8 @@ def Step.prev (prev : Option TT) : Step → Option TT
 def Step.push (st : Step) (r : List Token × List LexErr × Nat) : List Token × List LexErr × Nat :=
   match st with
   | .tok t _ => (t :: r.1, r.2.1, r.2.2)
-  | .skip _ => r
-  | .err e _ => (r.1, e :: r.2.1, r.2.2)
+  | .skip _ _ => r
+  | .err e _ _ => (r.1, e :: r.2.1, r.2.2)
 
 /-- src: `scan_tokens` loop. Returns the tokens (without `Eof`), the errors, and the offset of the
 last `start` (the `Eof` token's offset). -/
@@ -231,7 +235,7 @@ def scanLoop (cfg : LexCfg) (src : Str) (pos : Nat) (prev : Option TT) (lastStar
       have := scanOne_progress cfg prev pos c cs; simp; omega
     (scanOne cfg prev pos c cs).push
       (scanLoop cfg (scanOne cfg prev pos c cs).rest
-        (pos + (ulen (c :: cs) - ulen (scanOne cfg prev pos c cs).rest))
+        (pos + (scanOne cfg prev pos c cs).bytes)
         ((scanOne cfg prev pos c cs).prev prev) pos)
 termination_by src.length
 
